@@ -12,6 +12,7 @@ CONSTANTS TraceFile, Check
 Tr == ndJsonDeserialize(TraceFile)
 Canon(x) == CASE x = "m1" -> "s1" [] x = "m2" -> "s2" [] OTHER -> x
 KeyFam(k) == IF k \in {"s6", "t6"} THEN "6" ELSE "4"
+UOf(kd) == CASE kd = "u1+" -> "u1" [] kd = "u2+" -> "u2" [] OTHER -> kd      \* the ufrag a kind names (USERNAME up to the first colon)
 VARIABLES l, pre, obs, ev,
           mode,     \* "seq": operations never overlap (exact reference) | "conc": steps of several operations interleave
           inj,      \* datagrams injected so far: sequence of [src, kind]
@@ -81,7 +82,7 @@ Delivered == {[c |-> c, n |-> obs.q[c][Len(obs.q[c])].n, src |-> obs.q[c][Len(ob
              \cup (IF ev.ev = "DispatchOp" THEN Reads ELSE {})
 IsStun(kd) == kd # "data"
 ByUfrag(x, kd) == LET k == Canon(x) IN
-    IF IsStun(kd) /\ kd \in DOMAIN rlisted[CHOOSE f \in DOMAIN rlisted : TRUE] /\ KeyFam(k) \in DOMAIN rlisted THEN rlisted[KeyFam(k)][kd] ELSE 0
+    IF IsStun(kd) /\ UOf(kd) \in DOMAIN rlisted[CHOOSE f \in DOMAIN rlisted : TRUE] /\ KeyFam(k) \in DOMAIN rlisted THEN rlisted[KeyFam(k)][UOf(kd)] ELSE 0
 Expected(x, kd) == IF ref[Canon(x)] # 0 THEN ref[Canon(x)] ELSE ByUfrag(x, kd)
 Only(c) == IF c = 0 THEN {} ELSE {c}
 \* ---------------------------------------------------------------- predicates
@@ -105,7 +106,7 @@ RightOneAtQuiescence == (ev.ev = "ProbeOp") =>
 \* interleaved steps: the receiver is at least a connection that has begun a write to that source, or the one the USERNAME names
 RightOneWeak == \A d \in Delivered : d.n \in 1..Len(inj) =>
                    \/ <<d.c, Canon(d.src)>> \in started
-                   \/ (IsStun(inj[d.n].kind) /\ inj[d.n].kind = obs.cu[d.c] /\ KeyFam(Canon(d.src)) = obs.cf[d.c])
+                   \/ (IsStun(inj[d.n].kind) /\ UOf(inj[d.n].kind) = obs.cu[d.c] /\ KeyFam(Canon(d.src)) = obs.cf[d.c])
 \* delivered datagrams are byte-identical (n = which injected datagram the bytes are, 0 = none) and carry the true source
 Identical == /\ \A c \in Conns : \A i \in 1..Len(obs.q[c]) : obs.q[c][i].n \in 1..Len(inj) /\ obs.q[c][i].src = inj[obs.q[c][i].n].src
              /\ \A d \in Reads : d.n \in 1..Len(inj) /\ d.src = inj[d.n].src
@@ -123,7 +124,7 @@ PerConnFifo == /\ \A c \in Conns : \A i \in 1..Len(obs.q[c]), j \in 1..Len(obs.q
                         ELSE ev.res = "ok" /\ Len(ev.rx) = 1 /\ ev.rx[1].c = ev.c /\ ev.rx[1].n = pre.q[ev.c][1].n /\ ev.rx[1].src = pre.q[ev.c][1].src
 \* a connection never receives a first-contact STUN datagram whose USERNAME names another ufrag
 NoForeignUfrag == \A d \in Delivered : (d.n \in 1..Len(inj) /\ IsStun(inj[d.n].kind)
-                                        /\ ~\E c \in Conns : <<c, Canon(d.src)>> \in started) => inj[d.n].kind = obs.cu[d.c]
+                                        /\ ~\E c \in Conns : <<c, Canon(d.src)>> \in started) => UOf(inj[d.n].kind) = obs.cu[d.c]
 \* after removal or close has returned (and nothing is in progress) the connection has no bindings and receives nothing
 Quiet(c) == obs.dpc = "idle" /\ obs.rpc = "idle" /\ \A w \in DOMAIN obs.wpc : obs.wpc[w] = "idle" \/ obs.wc[w] # c
 GoneBindings == \A c \in gone : (Quiet(c) /\ ~obs.muxClosed) => \A k \in KeysOf(obs) : obs.amap[k] # c
